@@ -150,7 +150,7 @@ class Cfg(object):
     def __init__(self, profile="pubsub", model="sync", close_delay=0.0, jitter="const",
                  jitter_value=0.5, seed=0, ondisc=True, onconn=False, onpub=True,
                  re_pub_on_fail=False, re_pub_on_connmade=False, re_echo=False,
-                 re_connect_on_disc=False, late=0.0, re_disc_on=None, re_on_refuse=None):
+                 re_connect_on_disc=False, late=0.0, re_disc_on=None, re_on_refuse=None, re_chain=False):
         self.__dict__.update(locals())
         del self.__dict__["self"]
 
@@ -204,6 +204,8 @@ class World(object):
         r.sink = self._reactor_sink
         ENV.fire_sink = self._fire_attempt
         self.ended = False
+        self.finishing = False
+        self.chain_budget = 8
         self.last_raised = None
         self.in_api = None
         self.created_mark = 0
@@ -465,6 +467,26 @@ class World(object):
                             (where == "suback" and op in ("subscribe", "unsubscribe")) or
                             (where == "connected" and op == "connect")):
                         self._re_disconnect(c, where)
+                    if (self.cfg.re_chain and self.depth == 0 and not self.ended and not self.finishing
+                            and self.chain_budget > 0 and info.get("why") != "chain"):
+                        # an application that issues its next request from the callback of the previous one
+                        # (subscribe and publish once connected; the next message once the last is acknowledged)
+                        self.chain_budget -= 1
+                        cur = self.cur.get(c.a, c)
+                        self.depth += 1
+                        try:
+                            if op == "connect":
+                                self._api_subscribe(cur, "str", 1, 1)
+                                self._api_publish(cur, 1, False, 3, "chain")
+                            elif op == "publish" and info.get("qos"):
+                                self._api_publish(cur, info["qos"], False, 3, "chain")
+                            elif op == "subscribe":
+                                self._api_unsubscribe(cur, "str", 1)
+                                self._api_subscribe(cur, "list", 2, 0)
+                            elif op == "unsubscribe":
+                                self._api_publish(cur, 2, False, 3, "chain")
+                        finally:
+                            self.depth -= 1
                     # an application callback may return whatever it likes; with one Deferred per
                     # request that value never reaches anybody else
                     return "consumed-by-application"
@@ -546,6 +568,12 @@ class World(object):
 
     def _api_connect(self, c, clean, keepalive, level, extra):
         kw = {"keepalive": keepalive, "cleanStart": clean, "version": V.get(level, level)}
+        if not extra and self.cfg.seed:
+            # seeded histories also vary the optional CONNECT fields
+            variant = (self.cfg.seed // 7 + c.idx) % 4
+            extra = ({}, {"willTopic": "will/t", "willMessage": "gone"},
+                     {"username": "user", "password": "secret"},
+                     {"willTopic": "will/\u00e9", "willMessage": "", "willQoS": 2, "willRetain": True, "username": "u"})[variant]
         kw.update(extra)
         cid = kw.pop("clientId", "cid-%d" % c.a)
         info = {"clean": clean, "keepalive": keepalive, "level": level, "clientId": cid,
@@ -956,6 +984,13 @@ class World(object):
         if ENV.reactor.fire_next() is None:
             self.ev("skip", why="no timer")
 
+    def s_stall(self, dt):
+        """The reactor is blocked for dt seconds (a long callback elsewhere, a GC pause, a suspended
+        process): time passes, nothing fires; the overdue calls then fire back to back, in due order,
+        when the next tick/adv step lets the reactor run."""
+        ENV.reactor.set_time(ENV.reactor.seconds() + dt)
+        self.ev("stall", dt=dt)
+
     def s_adv(self, dt, cap=100000):
         r = ENV.reactor
         target = r.seconds() + dt
@@ -1010,6 +1045,7 @@ class World(object):
 
     def finish(self, horizon=6000.0):
         self.ev("end_begin")
+        self.finishing = True
         self.cause = "end"
         for a in (0, 1):
             self.answer_all(a)
